@@ -100,6 +100,35 @@ def run(ctx):
         if abs(back[0, 1]) + abs(back[0, 2]) + abs(back[1, 2]) > 0 or np.linalg.det(back.astype(np.float64)) <= 0:
             viol("orientation-traj", "Trajectory.unitcell_vectors %s is not in the standard orientation" % back.tolist(), rp)
 
+    # ---- several frames with different cell shapes in one trajectory (a rectangular frame first, last or in between): every frame's vectors
+    # and volume must be those of its own lengths and angles
+    ortho = [c for c in cases if c[3:] == (90, 90, 90)]
+    skew = [c for c in cases if c[3:] != (90, 90, 90)]
+    for _ in range(ctx.n(40, 300)):
+        nf = rng.choice([2, 3, 5])
+        pick = [rng.choice(ortho if rng.random() < 0.4 else skew) for _ in range(nf)]
+        if rng.random() < 0.5:
+            pick[0] = rng.choice(ortho)
+        t = md.Trajectory(np.zeros((nf, 1, 3), dtype=np.float32), None)
+        t.unitcell_lengths = np.array([c[:3] for c in pick]); t.unitcell_angles = np.array([c[3:] for c in pick])
+        V = t.unitcell_vectors.astype(np.float64); vols = t.unitcell_volumes
+        ctx.count("mixed-shape trajectories")
+        ctx.case(None, ("mixed", tuple(round(c[5], 2) for c in pick), tuple(round(c[0], 3) for c in pick)))
+        for f, c in enumerate(pick):
+            want = np.array([np.asarray(x, dtype=np.float64) for x in l2v(*c)])
+            rp = dict(frame=f, lengths=[list(map(float, c[:3])) for c in pick], angles=[list(map(float, c[3:])) for c in pick])
+            if np.abs(V[f] - want).max() > 2e-5 * max(c[:3]):
+                viol("mixed-frames|vectors|first-%s" % ("rectangular" if pick[0][3:] == (90, 90, 90) else "skewed"),
+                     "frame %d of a trajectory whose frames have different cell shapes: unitcell_vectors %s, lengths %s angles %s give %s" % (f, V[f].round(5).tolist(), c[:3], c[3:], want.round(5).tolist()), rp)
+                break
+            vol = abs(float(np.dot(want[0], np.cross(want[1], want[2]))))
+            if abs(vols[f] - vol) > 1e-4 * vol:
+                viol("mixed-frames|volume", "frame %d: unitcell_volumes %.6f, triple product %.6f" % (f, vols[f], vol), rp)
+                break
+            if not np.array_equal(t[f].unitcell_vectors[0], t.unitcell_vectors[f]):
+                viol("mixed-frames|frame-alone", "frame %d alone has unitcell_vectors %s, inside the trajectory %s" % (f, t[f].unitcell_vectors[0].tolist(), t.unitcell_vectors[f].tolist()), rp)
+                break
+
     # ---- setter histories and completeness through operations
     hist = []
     for _ in range(ctx.n(80, 600)):
